@@ -111,6 +111,8 @@ pub struct Prop {
     pub post: Option<fn(&Ctx, &mut Stats) -> Vec<Failure>>,
     /// per case watchdog in seconds
     pub watchdog_s: u64,
+    /// shrink iterations (quick tier; thorough uses 8x)
+    pub shrink_iters: u32,
 }
 
 #[derive(Clone, Debug)]
@@ -279,7 +281,7 @@ pub fn explore(prop: &Prop, tier: Tier, seed: u64) -> Outcome {
                     cases: per_part,
                     failure_persistence: None,
                     rng_seed: RngSeed::Fixed(mix2(seed, part as u64 + 1000 * hash_bytes(prop.id.as_bytes()) % 1_000_003)),
-                    max_shrink_iters: if tier == Tier::Quick { 3000 } else { 20000 },
+                    max_shrink_iters: if tier == Tier::Quick { prop.shrink_iters } else { prop.shrink_iters * 8 },
                     max_global_rejects: u32::MAX,
                     ..Config::default()
                 };
